@@ -24,7 +24,7 @@ RULE = ('histories over {save_spike_clusters (fresh vectors, the vector the inst
         '10-symbol alphabets (closed by a reload; the second alphabet on a dataset with a loaded cluster_group.tsv: saves '
         'equal to the load-time snapshots) on two datasets and of length <= 2 on a one-spike-store dataset, a corpus, then 300 '
         'seeded random histories of length <= 8; thorough: every history of length <= 4 on one dataset and of length <= 3 on '
-        'five more, then 5000 sampled histories of length <= 10. Non-trivial = at least one save precedes an observed reload; '
+        'five more, then 4000 sampled histories of length <= 10. Non-trivial = at least one save precedes an observed reload; '
         'distinct = distinct (dataset, history).')
 EXHAUSTIVE = {'quick': True, 'thorough': True}
 CLAUSES = {
@@ -38,6 +38,9 @@ CLAUSES = {
     27: 'C10_subset (look-up): get_waveforms answered from the store = raw window on the stored channels',
     28: 'C10_frame (files): a file outside the curation state changed or appeared',
     29: 'close() raised',
+    30: 'C10_subset (selection): the spike ids stored by an extraction are an answer the selector may give for THAT '
+        'extraction: per template min(max_n_spikes_per_template, spikes of the template inside the kept chunks) ids, all of '
+        'them spikes of that template inside the kept chunks (every ceil(n_chunks/20)-th chunk)',
 }
 TRUSTED = ['csv (text layer: quoting, delimiters), str()/repr()/int()/float() round trip of numbers (oracle: cells are typed tokens)',
            'np.save/np.load/np.memmap, pathlib.glob (order not relied on), the file system',
@@ -246,10 +249,14 @@ def _datasets(rng, n, tier):
               dict(names='alf', label='probe00', write_clusters=False, raw=True),
               # subset stores of exactly one spike (fix-c10b): all spikes on one template / 22 raw chunks, one spike kept
               dict(names='ks', raw=True, layout='unused', n_templates=2, n_spikes=4),
-              dict(names='ks', raw=True, layout=('parts', 1), n_spikes=4),
-              dict(names='alf', raw=True, layout=('parts', 0), n_spikes=3),
+              # chunk counts at the boundaries of ceil(n_chunks / 20): 21 -> every 2nd, 40 -> every 2nd, 41 -> every 3rd, 20 -> all
+              dict(names='ks', raw=True, layout=('parts', 1, 21), n_spikes=4),
+              dict(names='alf', raw=True, layout=('parts', 0, 40), n_spikes=3),
               dict(names='alf', raw=True, layout='unused', n_templates=3),
-              dict(names='ks', raw=True, layout=('parts', 2), n_spikes=5)]
+              dict(names='ks', raw=True, layout=('parts', 2, 22), n_spikes=5),
+              dict(names='ks', raw=True, layout=('parts', 2, 41), n_spikes=6),
+              dict(names='alf', raw=True, layout=('parts', 4, 20), n_spikes=4),
+              dict(names='ks', raw=True, layout=('parts', 2, 40), n_spikes=5)]
     for i in range(n):
         out.append(T.make_dataset(rng, **(forced[i] if i < len(forced) else {})))
     return out
@@ -257,7 +264,7 @@ def _datasets(rng, n, tier):
 
 def generate(tier, rng):
     cases = []
-    pool = _datasets(rng, {'quick': 8, 'thorough': 16, 'search': 10}[tier], tier)
+    pool = _datasets(rng, {'quick': 8, 'thorough': 17, 'search': 10}[tier], tier)
     # corpus -----------------------------------------------------------------------------------------------
     ds0 = pool[0]
     ns0 = ds0['sem']['n_spikes']
@@ -348,7 +355,7 @@ def generate(tier, rng):
                 if not _use_after_close(ops, ds['sem']['n_spikes']):
                     cases.append(_case(ds, ops, copy.deepcopy(init)))
     # random stream -------------------------------------------------------------------------------------------------
-    nrand, lmax = (300, 7) if tier == 'quick' else (5000, 9)
+    nrand, lmax = (300, 7) if tier == 'quick' else (4000, 9)
     for _ in range(nrand):
         ds = rng.choice(pool)
         cases.append(_case(ds, _random_history(rng, ds, rng.randint(2, lmax))))
@@ -661,7 +668,7 @@ def encode(case, obs):
             ops.append('CloseModel')
         else:
             ops.append('Reload')
-    cin = '(InHist %s %s)' % (d0, q.lst(ops))
+    cin = '(InHist %s %s %s)' % (d0, q.lst(ops), q.zl([o[1] for o in inp['ops'] if o[0] == 'subset']))
     if obs[0] == 'crash':
         return cin, 'ObsCrash'
     vs = []
